@@ -178,9 +178,28 @@ func checkHITS(t *vlib.T, b *built) {
 	sp := b.sp
 	n := sp.n
 	if sp.edges() == 0 && n > 0 {
-		// Precondition: on a graph without edges the first normalisation divides
-		// by zero and HITS never terminates (see NOTES.md); not called.
-		t.Outcome("edgeless-skipped")
+		// Degenerate: the adjacency matrix is zero, so are its dominant singular
+		// vectors: no node is a hub or an authority, every score is exactly 0.
+		for _, tol := range hitsTols {
+			got, ok := hitsGuarded(t, b.g.(graph.Directed), tol)
+			if !ok {
+				t.Outcome("edgeless-no-termination")
+				return
+			}
+			t.Count("hits_runs", 1)
+			if len(got) != n {
+				t.Failf("HITS(tol=%v) on the graph without edges: %d entries for %d nodes", tol, len(got), n)
+			}
+			for _, id := range b.ids {
+				ha, ok := got[id]
+				if !ok || ha.Hub != 0 || ha.Authority != 0 {
+					t.Failf("HITS(tol=%v) on %s (no edges): node %d has %+v (present %v); the zero adjacency matrix has zero hub and authority scores", tol, sp, id, ha, ok)
+				}
+			}
+		}
+		t.Nontrivial()
+		t.Outcome(fmt.Sprintf("n=%d edgeless", n))
+		t.Detail(map[string]any{"graph": sp.String(), "ids": b.ids})
 		return
 	}
 	// AᵀA (authority) and AAᵀ (hub).
@@ -273,7 +292,7 @@ func genHITS(g *vlib.G, large bool) {
 	})
 }
 
-// hitsYields bounds the wait for HITS on the edgeless graph in scheduler
+// hitsYields bounds the wait for HITS on a graph without edges in scheduler
 // yields, never in time: with GOMAXPROCS=1 every runtime.Gosched of the
 // waiting goroutine hands the processor to the HITS goroutine, which needs
 // well under a microsecond of it when it terminates at all. A false alarm
@@ -282,44 +301,31 @@ func genHITS(g *vlib.G, large bool) {
 // machine.
 const hitsYields = 400
 
-// genHITSEdgeless is the only case that calls HITS on a graph without edges.
-// On the unrepaired code the first normalisation divides by zero, every score
-// becomes NaN and the loop never ends, so the call runs in its own goroutine
-// and the case gives up after a fixed number of scheduler yields (a
-// terminating call on 3 nodes finishes within the first one). The group is
-// registered last: a call that does not terminate keeps spinning in the
-// background until the shard exits.
-func genHITSEdgeless(g *vlib.G) {
-	g.Case("d3#0 edgeless", func(t *vlib.T) {
-		b := build(mkSpec(3, true, false, 0), 2, ordAsc, contSimple)
-		done := make(chan map[int64]network.HubAuthority, 1)
-		go func() { done <- network.HITS(b.g.(graph.Directed), 1e-8) }()
-		var got map[int64]network.HubAuthority
-		finished := false
-		for i := 0; i < hitsYields && !finished; i++ {
-			select {
-			case got = <-done:
-				finished = true
-			default:
-				runtime.Gosched()
-			}
+// hitsHangs is set once a HITS call did not come back: the goroutine keeps
+// spinning until the shard exits, so the process does not start another one.
+var hitsHangs bool
+
+// hitsGuarded calls HITS on a graph without edges. Before 78aa6bd such a call
+// never returned (0/0 in the first normalisation made every score NaN), so it
+// runs in its own goroutine and the caller gives up after hitsYields yields.
+func hitsGuarded(t *vlib.T, g graph.Directed, tol float64) (map[int64]network.HubAuthority, bool) {
+	if hitsHangs {
+		t.NoConfirm()
+		t.FailClass("hits-edgeless-no-termination", "HITS on a graph without edges did not terminate earlier in this shard; not called again")
+		return nil, false
+	}
+	done := make(chan map[int64]network.HubAuthority, 1)
+	go func() { done <- network.HITS(g, tol) }()
+	for i := 0; i < hitsYields; i++ {
+		select {
+		case got := <-done:
+			return got, true
+		default:
+			runtime.Gosched()
 		}
-		t.Nontrivial()
-		if !finished {
-			t.NoConfirm()
-			t.FailClass("hits-edgeless-no-termination", "HITS on a directed graph with 3 nodes and no edges does not terminate (0/0 in the first normalisation makes every score NaN, and NaN < tol never holds)")
-			t.Outcome("no-termination")
-			return
-		}
-		// Without links nothing is a hub or an authority: finite scores, one per node.
-		if len(got) != 3 {
-			t.Failf("HITS on the edgeless graph returned %d entries for 3 nodes", len(got))
-		}
-		for id, ha := range got {
-			if math.IsNaN(ha.Hub) || math.IsNaN(ha.Authority) || math.IsInf(ha.Hub, 0) || math.IsInf(ha.Authority, 0) {
-				t.Failf("HITS on the edgeless graph: node %d has scores %+v", id, ha)
-			}
-		}
-		t.Outcome("terminates")
-	})
+	}
+	hitsHangs = true
+	t.NoConfirm()
+	t.FailClass("hits-edgeless-no-termination", "HITS on a directed graph with nodes and no edges does not terminate (0/0 in the first normalisation makes every score NaN, and NaN < tol never holds)")
+	return nil, false
 }
